@@ -15,7 +15,8 @@ PROPS = ["IsoVerif/Props/C17.lean"] + (["IsoVerif/Props/C17Printer.lean"] if HAV
 TARGETS = ["IsoVerif.Props.C17"] + (["IsoVerif.Props.C17Printer"] if HAVE_PRINTER else [])
 GEN_DEPS = ["Constants"]
 LEVEL = "proof"
-RULE = ("in-process call histories against the real classes of src/id_policy.py (stub genedb), the real "
+RULE = ("in-process call histories against the real classes of src/id_policy.py (stub genedb; references with exon_id on "
+        "CDS / UTR / codon records also through real gffutils databases built with the options of src/gtf2db.py), the real "
         "construct_fl_isoforms / generate_monoexon_from_clustered (stubbed heuristics, real id code) and the real "
         "GFFPrinter.dump; exhaustive strings of length <= 3 over an 8-letter alphabet for int()/split + seeded random "
         "reference id lists, event histories and get_id histories; pipeline runs on synthetic multi-chromosome data "
@@ -29,8 +30,12 @@ ASSUMPTIONS = ["ids are ASCII (Python int() also accepts non-ASCII digits / spac
                "ids are shorter than CPython's 4300-digit int() limit",
                "CPython int / str(int) / '%d' semantics = Lean Nat.toDigits 10",
                "reading rule: transcript ids are compared with transcript ids, gene ids with gene ids (GTF attributes)",
-               "reading rule: the reference's own exon_id attributes are functional and injective (otherwise "
-               "'preserve reference ids' and 'distinct exons, distinct ids' contradict each other)"]
+               "reading rule: the reference's own exon_id attributes are functional and injective ON ITS EXON RECORDS (otherwise "
+               "'preserve reference ids' and 'distinct exons, distinct ids' contradict each other)",
+               "reading rule: 'exon IDs present in the reference are preserved' speaks about exon records; an exon_id value on a "
+               "CDS / codon / UTR record is an id present in the reference (never issued to another interval) but the printed "
+               "CDS / codon / UTR line need not repeat it (GENCODE puts the id of the containing exon there; IsoQuant numbers the "
+               "interval itself)"]
 
 QUICK = lambda ctx: ctx.tier == "quick"
 
@@ -124,7 +129,12 @@ def make_distributor(genedb_ids, chrom, rng=None):
 def make_storage(kw):
     IP = _impl()[0]
     dist = IP.SimpleIDDistributor() if kw["dist"] is None else make_distributor(kw["dist"], kw["chr"])
-    db = None if kw["genedb"] is None else G.stub_exon_db(kw["chr"], kw["genedb"])
+    if kw["genedb"] is None:
+        db = None
+    elif kw.get("real_db") and kw["genedb"]:      # (gffutils refuses to build a database from no lines at all)
+        db = G.real_record_db(kw["chr"], kw["genedb"])      # a real gffutils database (options of src/gtf2db.py)
+    else:
+        db = G.stub_exon_db(kw["chr"], kw["genedb"])
     return IP.FeatureIdStorage(dist, db, kw["chr"], "exon")
 
 
@@ -287,11 +297,27 @@ def gen_cases(ctx):
                 feats.append({"start": e["start"], "end": e["end"], "strand": e["strand"],
                               "attr": [rng.choice(["%s.1" % chrom, "%s.2" % chrom, "Q"])]})
         cases.append(("exon_history", {"dist": None, "genedb": feats, "chr": chrom, "calls": G.rand_calls(rng, chrom, feats)}))
+    # references that carry exon_id on records of other types as well (GENCODE; every extended_annotation.gtf written by
+    # IsoQuant): CDS / UTR / codon records next to the exon records; stub genedb and REAL gffutils databases
+    for i in range(300 if quick else 3000):
+        chrom = rng.choice(G.CHROMS)
+        recs = G.rand_record_reference(rng, chrom)
+        dist = None
+        if rng.random() < 0.15:
+            g, t = G.rand_ref_ids(rng, chrom)
+            dist = {"genes": g, "transcripts": t}
+        kw = {"dist": dist, "genedb": recs, "chr": chrom, "calls": G.rand_calls(rng, chrom, recs)}
+        if i % 5 == 0 and chrom:
+            kw["real_db"] = True
+            kw["genedb"] = [dict(e, attr=e["attr"] or None) for e in recs]      # GTF text cannot hold an empty value list
+        cases.append(("exon_history", kw))
     # GFFPrinter.dump
     if HAVE_PRINTER:
         from gen import ids_printer as GP
         for _ in range(150 if quick else 1500):
             cases.append(("dump", GP.rand_dump_case(rng)))
+        for _ in range(80 if quick else 800):
+            cases.append(("dump", GP.rand_dump_case(rng, records=True)))
     return cases
 
 
@@ -336,6 +362,8 @@ def correspondence(ctx):
                     ctx.count("event:" + ev["kind"])
             if op == "exon_history":
                 ctx.count("exon_history_calls", len(kw["calls"]))
+                if any(e.get("type", "exon") != "exon" and e["attr"] for e in kw["genedb"] or []):
+                    ctx.count("exon_history_ref_with_non_exon_ids" + ("_real_gffutils" if kw.get("real_db") else ""))
         if len(ctx.samples) < 8 and ctx.rng.random() < 0.004:
             ctx.sample({"op": op, "input": vlib.canon(kw), "model": mo, "impl": io})
     if stub_bad:
@@ -354,24 +382,37 @@ _RUNS = {}
 
 def scenario_seeds(ctx):
     n = 4 if QUICK(ctx) else 30
-    return [TOY_SEED] + [ctx.seed * 7 + i for i in range(n)]
+    return [TOY_SEED, TOY_SUBSET_SEED, TWO_CHR_GENE_SEED] + [ctx.seed * 7 + i for i in range(n)]
 
 
 TOY_SEED = -1      # scenario id of the toy data of the repository (real annotation with exon_id, CDS, UTR features)
+TOY_SUBSET_SEED = -2       # the same, run 1 sees every third read only: run 2 (reference = run 1's extended annotation,
+#                            whose CDS / codon / UTR lines carry exon_ids of their own) has many NEW exons to number
+TWO_CHR_GENE_SEED = -3     # one gene_id on two chromosomes, gene / transcript records inferred by gffutils (no --complete_genedb)
 
 
-def run_toy():
-    key = (TOY_SEED, P.REPO)
+def run_toy(seed=TOY_SEED):
+    key = (seed, P.REPO)
     if key in _RUNS:
         return _RUNS[key]
     d = P.scratch("isoverif_c17_toy_")
-    res = {"seed": TOY_SEED, "runs": [], "chroms": ["chr9"], "error": None}
+    res = {"seed": seed, "runs": [], "chroms": ["chr9"], "error": None}
     try:
         paths = P.copy_toy(os.path.join(d, "data"))
         if not all(k in paths for k in ("bam", "ref", "gtf")):
             res["error"] = "toy data missing"
             return res
-        rc, log = P.run_isoquant(os.path.join(d, "out1"), P.std_args(paths, threads=2), home=os.path.join(d, "home"))
+        p1 = paths
+        if seed == TOY_SUBSET_SEED:
+            import pysam
+            sub = os.path.join(d, "data", "third.bam")
+            with pysam.AlignmentFile(paths["bam"]) as src, pysam.AlignmentFile(sub, "wb", template=src) as out:
+                for i, r in enumerate(src):
+                    if i % 3 == 0:
+                        out.write(r)
+            pysam.index(sub)
+            p1 = dict(paths, bam=sub)
+        rc, log = P.run_isoquant(os.path.join(d, "out1"), P.std_args(p1, threads=2), home=os.path.join(d, "home"))
         if rc != 0:
             res["error"] = "toy run1 rc=%s: %s" % (rc, log[-800:])
             return res
@@ -394,8 +435,10 @@ def run_toy():
 def run_scenario(seed, keep=False):
     """two pipeline runs: (1) visible annotation + reads of a subset of genes; (2) reference = extended annotation of
     run 1, all reads.  Returns dict with parsed reference / output records per run (cached)."""
-    if seed == TOY_SEED:
-        return run_toy()
+    if seed in (TOY_SEED, TOY_SUBSET_SEED):
+        return run_toy(seed)
+    if seed == TWO_CHR_GENE_SEED:
+        return run_two_chr_gene()
     key = (seed, P.REPO)
     if key in _RUNS:
         return _RUNS[key]
@@ -420,6 +463,41 @@ def run_scenario(seed, keep=False):
             res["error"] = "run2 rc=%s: %s" % (rc, log[-800:])
             return res
         res["runs"].append(collect_run(ref2, P.out_files(os.path.join(d, "out2"))))
+        return res
+    finally:
+        _RUNS[key] = res
+        shutil.rmtree(d, ignore_errors=True)
+
+
+def run_two_chr_gene():
+    """a reference in the style of the UCSC / RefSeq GTFs: no gene / transcript records (gffutils infers them, the run
+    is made without --complete_genedb) and the same gene_id on two chromosomes (PAR genes, alternative haplotypes)"""
+    key = (TWO_CHR_GENE_SEED, P.REPO)
+    if key in _RUNS:
+        return _RUNS[key]
+    sc = G.build_scenario(11, n_chroms=2, genes_per_chrom=3, exon_id_attrs=False, isoquant_style_ref=False)
+    d = P.scratch("isoverif_c17_g2_")
+    res = {"seed": TWO_CHR_GENE_SEED, "runs": [], "chroms": sc["chroms"], "error": None}
+    try:
+        p = G.write_scenario(sc, os.path.join(d, "data"), cds=False)
+        lines = []
+        with open(p["gtf"]) as f:
+            for l in f:
+                c = l.rstrip("\n").split("\t")
+                if c[2] in ("gene", "transcript"):
+                    continue
+                c[8] = c[8].replace('gene_id "G0_1"', 'gene_id "SHARED"').replace('gene_id "G1_1"', 'gene_id "SHARED"')
+                if c[2] == "exon":
+                    c[8] += ' exon_id "E%s_%s_%s";' % (c[0], c[3], c[4])
+                lines.append("\t".join(c))
+        with open(p["gtf"], "w") as f:
+            f.write("\n".join(lines) + "\n")
+        args = [a for a in P.std_args(p, threads=2) if a != "--complete_genedb"]
+        rc, log = P.run_isoquant(os.path.join(d, "out"), args, home=os.path.join(d, "home"))
+        if rc != 0:
+            res["error"] = "run rc=%s: %s" % (rc, log[-800:])
+            return res
+        res["runs"].append(collect_run(p["gtf"], P.out_files(os.path.join(d, "out"))))
         return res
     finally:
         _RUNS[key] = res
@@ -459,13 +537,15 @@ def pipeline_correspondence(ctx):
             ctx.disagree("pipeline_run", {"seed": seed}, None, res["error"][:300])
             continue
         for ri, run in enumerate(res["runs"]):
-            ref_t = {r["attrs"].get("transcript_id") for r in run["ref"] if r["feature"] in ("transcript", "mRNA")}
-            ref_g = {r["attrs"].get("gene_id") for r in run["ref"] if r["feature"] == "gene"}
+            # (a reference without gene / transcript records: gffutils infers them from the exon records)
+            ref_t = {r["attrs"].get("transcript_id") for r in run["ref"] if r["feature"] in ("transcript", "mRNA", "exon")}
+            ref_g = {r["attrs"].get("gene_id") for r in run["ref"] if r["feature"] in ("gene", "exon")}
             lines, meta = [], []
             for chrom in sorted({r["chr"] for r in run["ref"] + run["tm"] + run["ext"]}):
-                feats = [{"start": r["start"], "end": r["end"], "strand": r["strand"],
+                # the records of every type that carry exon_id, in file order (+ the exon records without one)
+                feats = [{"start": r["start"], "end": r["end"], "strand": r["strand"], "type": r["feature"],
                           "attr": [r["attrs"]["exon_id"]] if "exon_id" in r["attrs"] else None}
-                         for r in run["ref"] if r["feature"] == "exon" and r["chr"] == chrom]
+                         for r in run["ref"] if (r["feature"] == "exon" or "exon_id" in r["attrs"]) and r["chr"] == chrom]
                 printed = [r for r in run["tm"] + run["ext"] if r["chr"] == chrom and "exon_id" in r["attrs"]]
                 lines.append(vlib.req("C17.exon_history", dist=None, genedb=feats, chr=chrom,
                                       calls=[list(exon_key(r)) for r in printed]))
@@ -535,19 +615,40 @@ def check_ids_inproc(chrom, genes, transcripts, events):
 
 
 def ref_maps(chrom, feats):
+    """the reference ids of the EXON records (docs/C17.md §3: `exon_id` names the exon; "preserved" and "distinct" are
+    read on the exon records): key -> ids, id -> keys"""
     by_key, by_id = collections.defaultdict(set), collections.defaultdict(set)
     for e in feats or []:
-        if e["attr"]:
+        if e["attr"] and e.get("type", "exon") == "exon":
             k = (chrom, e["start"], e["end"], e["strand"])
             by_key[k].add(e["attr"][0])
             by_id[e["attr"][0]].add(k)
     return by_key, by_id
 
 
-def check_exon_history(ids_by_call, ref_by_key, ref_by_id):
-    """ids_by_call: list of (key, id).  Property: same key <-> same id; reference ids preserved.  A reference that
-    is itself not functional / injective at a key or id is outside the domain for that key / id."""
+def ref_any(chrom, feats):
+    """every exon_id value of the chromosome's reference records of ANY feature type: (chr, id) -> {key: feature type}"""
+    res = {}
+    for e in feats or []:
+        if e["attr"]:
+            res.setdefault((chrom, e["attr"][0]), {}).setdefault((chrom, e["start"], e["end"], e["strand"]), e.get("type", "exon"))
+    return res
+
+
+def check_exon_history(ids_by_call, ref_by_key, ref_by_id, ref_all=None):
+    """ids_by_call: list of (key, id).  Property: same key <-> same id; reference ids preserved; an interval without a
+    reference id of its own (no exon record with exon_id) gets an id that no reference record of its chromosome - of any
+    feature type - carries.  A reference that is itself not functional / injective at a key or id is outside the domain
+    for that key / id."""
     fails = []
+    for k, i in ids_by_call:
+        # (an interval that is given the very id a non-exon record of the SAME interval carries in the reference is no
+        # collision: the id still names that interval)
+        if k not in ref_by_key and ref_all and (k[0], i) in ref_all and k not in ref_all[(k[0], i)]:
+            other, ft = sorted(ref_all[(k[0], i)].items())[0]
+            fails.append(("exon_id_collides_with_reference",
+                          "new id %r of %s is the exon_id of the reference %s record %s" % (i, k, ft, other)))
+            break
     k2i, i2k = collections.defaultdict(set), collections.defaultdict(set)
     for k, i in ids_by_call:
         k2i[k].add(i)
@@ -570,11 +671,11 @@ def check_exon_history(ids_by_call, ref_by_key, ref_by_id):
     return fails
 
 
-def check_storage_inproc(chrom, feats, calls):
-    st = make_storage({"dist": None, "genedb": feats, "chr": chrom})
+def check_storage_inproc(chrom, feats, calls, real_db=False):
+    st = make_storage({"dist": None, "genedb": feats, "chr": chrom, "real_db": real_db})
     got = [(tuple(c), st.get_id(c[0], (c[1], c[2]), c[3])) for c in calls]
     rk, ri = ref_maps(chrom, feats)
-    return check_exon_history(got, rk, ri)
+    return check_exon_history(got, rk, ri, ref_any(chrom, feats))
 
 
 def check_cross_chr_inproc(ca, cb, feats_a, feats_b, calls_a, calls_b):
@@ -605,8 +706,19 @@ def check_outputs(run):
             ref_g[r["attrs"].get("gene_id")] = r["chr"]
         elif r["feature"] == "exon":
             ref_ex[r["attrs"].get("transcript_id")].append((r["start"], r["end"]))
-    rk, ri = collections.defaultdict(set), collections.defaultdict(set)
+    # a reference without gene / transcript records (gffutils infers them)
+    gene_chrs = collections.defaultdict(set)
     for r in run["ref"]:
+        if r["feature"] == "exon":
+            ref_t.setdefault(r["attrs"].get("transcript_id"), (r["chr"], r["strand"]))
+            gene_chrs[r["attrs"].get("gene_id")].add(r["chr"])
+    for g, cs in gene_chrs.items():
+        ref_g.setdefault(g, sorted(cs)[0])
+    t_gene = {r["attrs"].get("transcript_id"): r["attrs"].get("gene_id") for r in run["ref"] if r["feature"] == "exon"}
+    rk, ri, rall = collections.defaultdict(set), collections.defaultdict(set), {}
+    for r in run["ref"]:
+        if "exon_id" in r["attrs"]:
+            rall.setdefault((r["chr"], r["attrs"]["exon_id"]), {}).setdefault(exon_key(r), r["feature"])
         if r["feature"] == "exon" and "exon_id" in r["attrs"]:
             rk[exon_key(r)].add(r["attrs"]["exon_id"])
             ri[r["attrs"]["exon_id"]].add(exon_key(r))
@@ -630,6 +742,11 @@ def check_outputs(run):
                 t_line[r["attrs"]["transcript_id"]] = r
         for t, r in t_line.items():
             if t in ref_t and (ref_t[t] != (r["chr"], r["strand"]) or sorted(ref_ex[t]) != sorted(out_ex[t])):
+                if ref_t[t][0] != r["chr"] and len(gene_chrs.get(t_gene.get(t), ())) > 1:
+                    fails.append(("reference_gene_on_two_chromosomes",
+                                  "%s: reference transcript %s of %s is printed on %s (its gene_id %s occurs on %s)"
+                                  % (name, t, ref_t[t][0], r["chr"], t_gene.get(t), sorted(gene_chrs[t_gene[t]]))))
+                    break
                 fails.append(("novel_id_collides_with_reference",
                               "%s: transcript %s differs from the reference transcript of that id" % (name, t)))
                 break
@@ -638,7 +755,7 @@ def check_outputs(run):
         for t, r in t_line.items():
             g_tr[r["attrs"]["gene_id"]].append((r["chr"], r["start"], r["end"]))
         for g, trs in sorted(g_tr.items()):
-            if g in ref_g and any(c != ref_g[g] for c, _, _ in trs):
+            if g in ref_g and any(c != ref_g[g] and c not in gene_chrs.get(g, ()) for c, _, _ in trs):
                 fails.append(("novel_id_collides_with_reference", "%s: gene %s of %s has transcripts on %s"
                               % (name, g, ref_g[g], sorted({c for c, _, _ in trs}))))
                 break
@@ -654,7 +771,7 @@ def check_outputs(run):
                         break
                     end = max(end, b)
     calls = [(exon_key(r), r["attrs"]["exon_id"]) for r in run["tm"] + run["ext"] if "exon_id" in r["attrs"]]
-    fails += check_exon_history(calls, rk, ri)
+    fails += check_exon_history(calls, rk, ri, rall)
     return fails
 
 
@@ -687,7 +804,7 @@ def check_dump_case(case):
         if dup:
             fails.append(("gene_id_duplicate", "printer %d wrote the gene line of %s more than once" % (p, dup[:3])))
     rk, ri = ref_maps(case["chr"], case["genedb"])
-    return fails + check_exon_history(calls, rk, ri)
+    return fails + check_exon_history(calls, rk, ri, ref_any(case["chr"], case["genedb"]))
 
 
 def replay_known_cross_chr():
@@ -715,7 +832,7 @@ def oracle_case(case):
     if k == "ids":
         return check_ids_inproc(case["chr"], case["genes"], case["transcripts"], case["events"])
     if k == "storage":
-        return check_storage_inproc(case["chr"], case["genedb"], case["calls"])
+        return check_storage_inproc(case["chr"], case["genedb"], case["calls"], case.get("real_db", False))
     if k == "cross_chr":
         return check_cross_chr_inproc(case["a"], case["b"], case["feats_a"], case["feats_b"], case["calls_a"], case["calls_b"])
     if k == "dump":
@@ -766,7 +883,8 @@ def oracle(ctx, disagreements, broken):
             g = inp["genedb"] or {"genes": [], "transcripts": []}
             run({"level": "ids", "chr": inp["chr"], "genes": g["genes"], "transcripts": g["transcripts"], "events": inp["events"]})
         elif d["op"] == "exon_history" and inp.get("dist") is None:
-            run({"level": "storage", "chr": inp["chr"], "genedb": inp["genedb"], "calls": inp["calls"]})
+            run({"level": "storage", "chr": inp["chr"], "genedb": inp["genedb"], "calls": inp["calls"],
+                 "real_db": bool(inp.get("real_db"))})
         elif d["op"] == "dump":
             run({"level": "dump", "case": inp})
         elif d["op"].startswith("pipeline_") and "seed" in inp:
@@ -789,6 +907,18 @@ def oracle(ctx, disagreements, broken):
         run({"level": "storage", "chr": chrom, "genedb": feats, "calls": G.rand_calls(rng, chrom, feats)})
         if len(ctx.failures) > 20:
             break
+    # references with exon_id on CDS / UTR / codon records (GENCODE style and IsoQuant's own extended annotations);
+    # every fourth one through a real gffutils database
+    for i in range(400 if quick else 4000):
+        chrom = rng.choice(G.CHROMS)
+        recs = G.rand_record_reference(rng, chrom)
+        case = {"level": "storage", "chr": chrom, "genedb": recs, "calls": G.rand_calls(rng, chrom, recs)}
+        if i % 4 == 0:
+            case["real_db"] = True
+            case["genedb"] = [dict(e, attr=e["attr"] or None) for e in recs]
+        run(case)
+        if len(ctx.failures) > 20:
+            break
     for _ in range(200 if quick else 2000):
         a, b = rng.sample(G.CHROMS, 2)
         fa = G.rand_exon_reference(rng, a, isoquant_style=0.5)
@@ -801,8 +931,8 @@ def oracle(ctx, disagreements, broken):
             break
     if HAVE_PRINTER:
         from gen import ids_printer as GP
-        for _ in range(150 if quick else 1500):
-            run({"level": "dump", "case": GP.rand_dump_case(rng)})
+        for i in range(230 if quick else 2300):
+            run({"level": "dump", "case": GP.rand_dump_case(rng, records=i % 3 == 2)})
             if len(ctx.failures) > 20:
                 break
     # 3. the real pipeline
@@ -810,6 +940,11 @@ def oracle(ctx, disagreements, broken):
         run({"level": "pipeline", "seed": seed})
     # 4. the listed finding is replayed on the real classes on every run
     run({"level": "known_cross_chr"})
+    # 5. the input of the Lean theorem exon_id_collision_orig_witness on the real class through a real gffutils database
+    #    (the code before the repair fails here: the new exon 300-400 gets c.2, the exon_id of the reference CDS 120-180)
+    run({"level": "storage", "chr": "c", "real_db": True, "calls": [["c", 300, 400, "+"], ["c", 100, 200, "+"], ["c", 120, 180, "+"]],
+         "genedb": [{"start": 100, "end": 200, "strand": "+", "attr": ["c.1"], "type": "exon"},
+                    {"start": 120, "end": 180, "strand": "+", "attr": ["c.2"], "type": "CDS"}]})
     ctx.extra["oracle_cases"] = n
 
 
